@@ -817,3 +817,284 @@ Proof.
   - unfold anchor_retained in A. rewrite (inv_position _ _ _ _ _ I) in A. exact A.
   - rewrite (i_hist _ _ _ _ _ I), !app_length in L. lia.
 Qed.
+
+(* ---- Watch: every stream it returns starts in the invariant ---- *)
+
+Definition world0 (hist : list event) (ntrim : nat) (st : sstate) : world :=
+  mkWorld hist ntrim st [] [] false.
+
+Definition opt_in (o : option Z) (L : list Z) : Prop :=
+  match o with None => True | Some i => In i L end.
+
+Lemma last_event_in : forall l e, last_event l = Some e -> In e l.
+Proof.
+  induction l as [|x t IH]; simpl; intros e H; [discriminate|].
+  destruct t as [|y t']; [inversion H; auto|]. right; apply IH; exact H.
+Qed.
+
+Lemma last_event_snoc : forall a e, last_event (a ++ [e]) = Some e.
+Proof.
+  induction a as [|x t IH]; intros e; [reflexivity|].
+  simpl. destruct (t ++ [e]) eqn:E; [destruct t; discriminate|]. rewrite <- E. apply IH.
+Qed.
+
+Lemma find_event_in : forall id l e, find_event id l = Some e -> In e l /\ eid e = id.
+Proof.
+  induction l as [|x t IH]; simpl; intros e H; [discriminate|].
+  destruct (Z.eqb_spec (eid x) id) as [E|E].
+  - inversion H; subst; auto.
+  - destruct (IH _ H); auto.
+Qed.
+
+Lemma start_at_in : forall z l prev dflt L,
+  opt_in prev L -> opt_in dflt L -> (forall x, In x l -> In (eid x) L) ->
+  opt_in (start_at z prev l dflt) L.
+Proof.
+  induction l as [|e t IH]; simpl; intros prev dflt L Hp Hd Hl; [exact Hd|].
+  destruct (Z.leb z (eid e)); [exact Hp|].
+  apply IH; simpl; auto.
+Qed.
+
+Lemma resolve_token_in : forall t l cur r, resolve_token t l cur = Some r ->
+  opt_in cur (ids l) -> opt_in r (ids l).
+Proof.
+  intros [[id|]|] l cur r; simpl.
+  - destruct (find_event id l) as [e|] eqn:F; [|discriminate].
+    intros H _; inversion H; subst; simpl. apply find_event_in in F. destruct F as [F _].
+    unfold ids; apply in_map; exact F.
+  - discriminate.
+  - intros H; inversion H; subst; auto.
+Qed.
+
+Lemma watch_shape : forall h o log st, watch h o log = Some st ->
+  st = mkS h (slast st) false false None None None /\ opt_in (slast st) (ids log).
+Proof.
+  intros h o log st; unfold watch.
+  assert (H0 : opt_in (option_map eid (last_event log)) (ids log)).
+  { destruct (last_event log) as [e|] eqn:L; simpl; [|exact Logic.I].
+    unfold ids; apply in_map. apply last_event_in; exact L. }
+  destruct (resolve_token (w_resume o) log _) as [l1|] eqn:R1; [|discriminate].
+  pose proof (resolve_token_in _ _ _ _ R1 H0) as H1.
+  destruct (resolve_token (w_after o) log l1) as [l2|] eqn:R2; [|discriminate].
+  pose proof (resolve_token_in _ _ _ _ R2 H1) as H2.
+  intros H; inversion H; subst; simpl. split; [reflexivity|].
+  destruct (w_at o) as [z|]; [|exact H2].
+  apply start_at_in; simpl; auto. intros x Hx; unfold ids; apply in_map; exact Hx.
+Qed.
+
+Lemma inv_initial : forall h hist ntrim st a b,
+  NoDup (ids hist) -> ntrim <= length hist -> sh st = h -> sdropped st = false ->
+  hist = a ++ b ->
+  (match slast st with
+   | None => ntrim = length a
+   | Some id => exists A e, a = A ++ [e] /\ eid e = id
+   end) ->
+  inv h a (world0 hist ntrim st) [] b.
+Proof.
+  intros h hist ntrim st a b ND Hn Hh Hd Hs Ha.
+  constructor; simpl; auto.
+  - rewrite app_nil_r. exact Ha.
+  - constructor.
+  - intros _ rest. rewrite Hd. reflexivity.
+Qed.
+
+(* Every stream Engine.Watch returns — from now, resumeAfter, startAfter,
+   startAtOperationTime or any combination — starts in the invariant: all the
+   theorems of this part apply to it. *)
+Theorem watch_inv : forall h o hist ntrim st,
+  NoDup (ids hist) -> ntrim <= length hist ->
+  watch h o (skipn ntrim hist) = Some st ->
+  exists pre post, inv h pre (world0 hist ntrim st) [] post /\ live st /\ sdropped st = false.
+Proof.
+  intros h o hist ntrim st ND Hn W.
+  destruct (watch_shape _ _ _ _ W) as [Est Hin].
+  assert (Hh : sh st = h) by (rewrite Est; reflexivity).
+  assert (Hd : sdropped st = false) by (rewrite Est; reflexivity).
+  assert (Hl : live st) by (rewrite Est; split; reflexivity).
+  destruct (slast st) as [id|] eqn:L.
+  - simpl in Hin. unfold ids in Hin. apply in_map_iff in Hin. destruct Hin as (e & He & Hine).
+    apply in_split in Hine. destruct Hine as (a & b & Hab).
+    exists (firstn ntrim hist ++ a ++ [e]), b. split; [|auto].
+    apply inv_initial; auto.
+    + rewrite <- (firstn_skipn ntrim hist) at 1. rewrite Hab, <- !app_assoc. reflexivity.
+    + rewrite L. exists (firstn ntrim hist ++ a), e. rewrite <- app_assoc. auto.
+  - exists (firstn ntrim hist), (skipn ntrim hist). split; [|auto].
+    apply inv_initial; auto.
+    + symmetry; apply firstn_skipn.
+    + rewrite L. rewrite firstn_length_le; auto.
+Qed.
+
+(* where the three start modes put the stream *)
+
+(* now: after everything committed so far *)
+Lemma watch_now_start : forall h hist ntrim, NoDup (ids hist) -> ntrim <= length hist ->
+  exists st, watch h watch_now (skipn ntrim hist) = Some st /\
+             inv h hist (world0 hist ntrim st) [] [] /\
+             (slast st = None <-> ntrim = length hist).
+Proof.
+  intros h hist ntrim ND Hn.
+  destruct (skipn ntrim hist) as [|x t] eqn:S.
+  - eexists; split; [reflexivity|]. simpl.
+    assert (E : ntrim = length hist).
+    { pose proof (skipn_length ntrim hist) as Hl. rewrite S in Hl. simpl in Hl. lia. }
+    split; [|tauto]. apply inv_initial; simpl; auto.
+    + rewrite app_nil_r; reflexivity.
+  - assert (Hne : x :: t <> []) by discriminate.
+    destruct (exists_last Hne) as (a & e & Hae).
+    exists (mkS h (Some (eid e)) false false None None None). split.
+    + unfold watch, watch_now; simpl w_resume; simpl w_after; simpl w_at. rewrite Hae, last_event_snoc. reflexivity.
+    + split.
+      * apply inv_initial; simpl; auto; [rewrite app_nil_r; reflexivity|].
+        exists (firstn ntrim hist ++ a), e. split; [|reflexivity].
+        rewrite <- (firstn_skipn ntrim hist) at 1. rewrite S, Hae, <- app_assoc. reflexivity.
+      * simpl. split; [discriminate|]. intros E. rewrite E, skipn_all in S. discriminate.
+Qed.
+
+(* resumeAfter / startAfter with the token of a retained event e: right after e *)
+Lemma watch_resume_start : forall h hist ntrim A e B (after : bool),
+  NoDup (ids hist) -> ntrim <= length A -> hist = A ++ e :: B ->
+  let o := if after then mkW None (Some (TokEvent (eid e))) None else mkW (Some (TokEvent (eid e))) None None in
+  exists st, watch h o (skipn ntrim hist) = Some st /\ slast st = Some (eid e) /\
+             inv h (A ++ [e]) (world0 hist ntrim st) [] B.
+Proof.
+  intros h hist ntrim A e B after ND Hn Hh o.
+  assert (F : find_event (eid e) (skipn ntrim hist) = Some e).
+  { rewrite Hh, skipn_app. replace (ntrim - length A) with 0 by lia. simpl.
+    apply find_event_app; [|reflexivity].
+    rewrite Hh, ids_app in ND. simpl in ND. intros C.
+    assert (C' : In (eid e) (ids A)).
+    { unfold ids in *. apply in_map_iff in C. destruct C as (x & Hx & Hin).
+      apply in_map_iff. exists x; split; [exact Hx|eapply in_skipn; exact Hin]. }
+    eapply (NoDup_app_disj _ _ _ _ ND C'). left; reflexivity. }
+  exists (mkS h (Some (eid e)) false false None None None).
+  split; [|split; [reflexivity|]].
+  - subst o; destruct after; unfold watch; simpl; rewrite F; reflexivity.
+  - apply inv_initial; simpl; auto.
+    + rewrite Hh, app_length; simpl; lia.
+    + rewrite Hh, <- app_assoc. reflexivity.
+    + exists A, e. auto.
+Qed.
+
+Lemma start_at_skip : forall z a e b prev dflt,
+  (forall x, In x a -> (eid x < z)%Z) -> (z <= eid e)%Z ->
+  start_at z prev (a ++ e :: b) dflt = fold_left (fun _ x => Some (eid x)) a prev.
+Proof.
+  induction a as [|x t IH]; simpl; intros e b prev dflt Ha He.
+  - destruct (Z.leb_spec z (eid e)); [reflexivity|lia].
+  - destruct (Z.leb_spec z (eid x)); [specialize (Ha x (or_introl eq_refl)); lia|].
+    apply IH; auto.
+Qed.
+
+(* startAtOperationTime z: right before the first retained event at or after z;
+   when that is the first retained event the stream has no reference event *)
+Lemma watch_at_start : forall h hist ntrim z a e b,
+  NoDup (ids hist) -> ntrim <= length hist -> skipn ntrim hist = a ++ e :: b ->
+  (forall x, In x a -> (eid x < z)%Z) -> (z <= eid e)%Z ->
+  exists st, watch h (mkW None None (Some z)) (skipn ntrim hist) = Some st /\
+             inv h (firstn ntrim hist ++ a) (world0 hist ntrim st) [] (e :: b) /\
+             (slast st = None <-> a = []).
+Proof.
+  intros h hist ntrim z a e b ND Hn S Ha He.
+  exists (mkS h (fold_left (fun _ x => Some (eid x)) a None) false false None None None).
+  split; [|split].
+  - unfold watch; simpl. rewrite S, start_at_skip; auto.
+  - apply inv_initial; simpl; auto.
+    + rewrite <- (firstn_skipn ntrim hist) at 1. rewrite S, <- app_assoc. reflexivity.
+    + destruct a as [|x t] using rev_ind; simpl.
+      * rewrite app_nil_r. rewrite firstn_length_le; auto.
+      * rewrite fold_left_app. simpl. exists (firstn ntrim hist ++ t), x. rewrite app_assoc. auto.
+  - simpl. destruct a as [|x t] using rev_ind; simpl; [tauto|].
+    rewrite fold_left_app; simpl. split; [discriminate|]. intros C; destruct t; discriminate.
+Qed.
+
+(* ---- resume ---- *)
+
+Lemma token_after_event : forall b c s log s' e,
+  next_iter b c s log = (s', Return (Event e)) -> stok s' = Some (TokEvent (eid e)).
+Proof.
+  intros b c s log s' e; unfold next_iter.
+  destruct (is_some (serror s) || sclosed s); [discriminate|].
+  destruct (sdropped s); [discriminate|].
+  destruct (pending s log) as [[|x t]|]; try discriminate.
+  - destruct b; [discriminate|]. destruct c; discriminate.
+  - destruct (in_scope (sh s) x); [|discriminate]. intros H; inversion H; subst; reflexivity.
+Qed.
+
+(* Watch with resumeAfter = the token of an event e that a stream has delivered
+   (any earlier interleaving) and that is still retained: the new stream — of
+   any scope — is positioned right after e and holds e as reference event, so
+   delivery_anchored / delivery_complete_partial / lost_is_reported_partial
+   apply to it with "after" = the events committed after e: it continues with
+   the next event. *)
+Theorem resume_continues : forall h h' pre w0 post0 script e,
+  inv h pre w0 [] post0 -> script_ok (w_hist w0) script ->
+  let w := exec w0 script in
+  In e (w_deliv w) -> In e (w_log w) ->
+  exists st' A B,
+    w_hist w = A ++ e :: B /\
+    watch h' (mkW (Some (TokEvent (eid e))) None None) (w_log w) = Some st' /\
+    slast st' = Some (eid e) /\
+    inv h' (A ++ [e]) (world0 (w_hist w) (w_ntrim w) st') [] B.
+Proof.
+  intros h h' pre w0 post0 script e I0 Hok w _ Hlog.
+  destruct (exec_inv script h pre w0 [] post0 I0 Hok) as (mid & post & I). fold w in I.
+  unfold w_log in Hlog. apply in_split in Hlog. destruct Hlog as (a & b & Hab).
+  assert (Hh : w_hist w = (firstn (w_ntrim w) (w_hist w) ++ a) ++ e :: b).
+  { rewrite <- (firstn_skipn (w_ntrim w) (w_hist w)) at 1. rewrite Hab, <- app_assoc. reflexivity. }
+  destruct (watch_resume_start h' (w_hist w) (w_ntrim w) (firstn (w_ntrim w) (w_hist w) ++ a) e b false
+              (i_nodup _ _ _ _ _ I)) as (st' & W & L & I'); [|exact Hh|].
+  { rewrite app_length, firstn_length_le; [lia|exact (i_ntrim _ _ _ _ _ I)]. }
+  exists st', (firstn (w_ntrim w) (w_hist w) ++ a), b. auto.
+Qed.
+
+(* ... and therefore: whatever happens next, what the resumed stream returns
+   is a gap-free prefix of the in-scope events committed after e *)
+Corollary resume_continues_delivery : forall h' hist ntrim st' A e B script,
+  inv h' (A ++ [e]) (world0 hist ntrim st') [] B -> slast st' = Some (eid e) ->
+  script_ok hist script ->
+  let w := exec (world0 hist ntrim st') script in
+  prefix (w_deliv w) (expected h' (skipn (length (A ++ [e])) (w_hist w))).
+Proof.
+  intros h' hist ntrim st' A e B script I L Hok w.
+  apply (delivery_anchored h' (A ++ [e]) (world0 hist ntrim st') B script); auto.
+  simpl. rewrite L. discriminate.
+Qed.
+
+(* ---- invalidate ---- *)
+
+(* After delivering an event that drops the stream's namespace (drops_coll /
+   drops_db: the drop of its collection or the dropDatabase of its database)
+   the next call returns the invalidate event and closes the stream; every
+   later call returns Closed. *)
+Theorem invalidate_after_drop : forall b c s log s' e,
+  next_iter b c s log = (s', Return (Event e)) -> drops (sh s) e = true ->
+  forall b' c' log',
+  exists s'', next_iter b' c' s' log' = (s'', Return Invalidate) /\
+              sclosed s'' = true /\ stok s'' = Some TokInvalidate /\
+              forall b'' c'' log'', next_iter b'' c'' s'' log'' = (s'', Return Closed).
+Proof.
+  intros b c s log s' e H D b' c' log'. unfold next_iter in H.
+  destruct (is_some (serror s) || sclosed s) eqn:V; [discriminate|].
+  destruct (sdropped s) eqn:Dr; [discriminate|].
+  destruct (pending s log) as [[|x t]|]; try discriminate.
+  - destruct b; [discriminate|]. destruct c; discriminate.
+  - destruct (in_scope (sh s) x); [|discriminate]. inversion H; subst; clear H.
+    eexists. split; [|split; [|split]].
+    + unfold next_iter; simpl. rewrite V, D. simpl. reflexivity.
+    + reflexivity.
+    + reflexivity.
+    + intros b'' c'' log''. unfold next_iter; simpl. rewrite orb_true_r. reflexivity.
+Qed.
+
+(* the invalidate event comes only after such a drop: a stream that has not
+   delivered a dropping event never returns Invalidate *)
+Lemma invalidate_only_after_drop : forall b c s log s',
+  next_iter b c s log = (s', Return Invalidate) -> sdropped s = true.
+Proof.
+  intros b c s log s'; unfold next_iter.
+  destruct (is_some (serror s) || sclosed s); [discriminate|].
+  destruct (sdropped s); [reflexivity|].
+  destruct (pending s log) as [[|x t]|]; try discriminate.
+  - destruct b; [discriminate|]. destruct c; discriminate.
+  - destruct (in_scope (sh s) x); discriminate.
+Qed.
